@@ -125,6 +125,19 @@ def randomV2 {σ α : Type} (G : Gen σ) (kind : Kind) (s : Int) (keys : List α
     | .global => (pickLoop G count (runEnv G sched (G.seed s)) keys []).1
   else keys
 
+/-! ### order in which the checkpoint manager notifies its listeners -/
+
+/-- insertion into a list sorted by priority (strictly smaller first) -/
+def insertByPrio (x : String × Nat) : List (String × Nat) → List (String × Nat)
+  | [] => [x]
+  | y :: ys => if x.2 < y.2 then x :: y :: ys else y :: insertByPrio x ys
+
+/-- `getOrderedCheckpoints`: the registered checkpoints (a Go map: any order) sorted by
+    `Priority()`; `none` when two priorities tie — then `sort.Slice` leaves the order to the map
+    iteration and the notification order is not a function of the registered set. -/
+def checkpointOrder (cps : List (String × Nat)) : Option (List String) :=
+  if (cps.map (·.2)).Nodup then some ((cps.foldr insertByPrio []).map (·.1)) else none
+
 /-! ### order of the voted producers -/
 
 /-- a producer as the sort sees it: votes and node public key (bytes compared lexicographically) -/
